@@ -149,6 +149,7 @@ def _run_shard(args):
 def run_harness(mode, cases, wd, nproc=None, timeout=900):
     """Run cases (list of dicts with unique 'id') over nproc harness processes; return events per case id."""
     binp = build_harness()
+    os.makedirs(wd, exist_ok=True)
     if nproc is None:
         nproc = min(NCPU, 16)
     nproc = max(1, min(nproc, len(cases)))
